@@ -136,4 +136,25 @@ Qed.
 Theorem unused_param_zero (ws fv : 'I_n -> F) :
   (forall i, D (ws i) = 0) -> (forall i, D (fv i) = 0) -> D (\sum_i ws i * fv i) = 0.
 Proof. by move=> Hw Hf; rewrite rule_derivative_commutes // big1 // => i _; rewrite Hf mulr0. Qed.
+
+Lemma der_exp (a : F) k : D (a ^+ k.+1) = k.+1%:R * a ^+ k * D a.
+Proof.
+elim: k => [|k IH]; first by rewrite expr1 expr0 mulr1 mul1r.
+rewrite exprS derM IH -[in RHS]addn1 natrD [a ^+ k.+1 in RHS]exprS [a ^+ k.+1 in LHS]exprS.
+by set b := a ^+ k; set m := _%:R; ring.
+Qed.
+
+(* the gradient w.r.t. the limits: for an integrand the rule integrates exactly (a polynomial of degree <= d whose coefficients
+   do not depend on the parameter), the derivative of the FORWARD value is the Leibniz formula f(xu) D xu - f(xl) D xl the
+   backward pass of quad returns, for limits in any order and every derivation (hence at every order) *)
+Theorem limits_gradient_leibniz d xl xu (p : {poly F}) : moments_exact d -> (size p <= d.+1)%N ->
+  (forall k, D p`_k = 0) ->
+  D (Q xl xu (fun t => p.[t])) = p.[xu] * D xu - p.[xl] * D xl.
+Proof.
+move=> Hm Hs Hp; rewrite (mapped_rule_exact_poly _ _ Hm Hs) der_sum !horner_coef !mulr_suml -sumrB.
+apply: eq_bigr => k _.
+have k0 : (k.+1%:R : F) != 0 by rewrite pnatr_eq0.
+rewrite derM Hp mul0r add0r der_div // derB !der_exp der_nat mulr0 mul0r subr0.
+by set a := xu ^+ k; set b := xl ^+ k; set m := _%:R; field.
+Qed.
 End Rule.
